@@ -77,6 +77,13 @@ def hoist (b e : Nat) (m : Member) : List CapDef × List Toks :=
      m.ops.zipIdx.map fun (o, i) => if o.kind = .block then [(Var.ew b e i).tok] else o.toks)
   else ([], m.ops.map (·.toks))
 
+/-- Definitions hoisted out of the actions of one branch-step: only plain actions (no `>>>`/`<<<` flag)
+    contribute (`process_step_action_expr`: the two other arms never call `separate_block_expr` on the
+    action's own operands). -/
+def capDefsOf (b : Nat) : List Member → Nat → List CapDef
+  | [], _ => []
+  | m :: ms, e => (if m.mv = .none then (hoist b e m).1 else []) ++ capDefsOf b ms (e + 1)
+
 /-! ### One action applied to the stream built so far (`expand_process_expr` and the two other arms) -/
 
 def applyCtor (isAsync : Bool) (prev : Toks) (c : Comb) (ops : List Toks) : Except GenErr Toks :=
